@@ -77,6 +77,23 @@ PROPS = {
         "level_text": "Insertion is checked on graphs that have a history, because that is where its defect classes live (index holes in the source, freed indices reused in the target so the mapping is not monotone, ports with several links, order links, metadata). The oracle observes both HUGRs through public queries before and after and checks isomorphism, root placement, frame and source-unmodified independently of the implementation's own mapping logic.",
         "level_note": "Trusted: oracles/iso.py. Later aliasing of metadata dicts between source and target is not asserted (the statement is about the moment of insertion). Operations are compared by identity or dataclass equality.",
     },
+    "C12": {
+        "engine": "B", "level": "exploration",
+        "tiers": {"quick": {"batches": 16, "runs": 200, "budget_s": 50, "floor_runs": 800},
+                  "thorough": {"batches": 64, "runs": 2500, "budget_s": 550, "floor_runs": 30000}},
+        "rule": "one run = a Module-rooted engine-B builder program (interleaved builders; functions called more than once, "
+                "constants loaded more than once and from outer scopes, order edges, nested control flow, polymorphic callees) that "
+                "the C01 reference validator accepts; Hugr.to_model() is walked as dataclasses and compared with the HUGR: regions "
+                "mirror the hierarchy, per-node value-port counts (refsem), link-name partition == connected components of the "
+                "HUGR's value/control links, CFG region source, applied symbols declared, order hints, metadata; the attribute table "
+                "of the model classes vs python.rs is checked once per batch (static); non-trivial = >= 3 builder calls",
+        "real": ["hugr.model.export.ModelExport, hugr.model dataclasses, tys/val to_model"], 
+        "stub": ["hugr._hugr native printer/parser (absent offline): model objects are never str()/bytes()-ed", "Rust import.rs (the reader of the model) -> oracles/modelcheck.py"],
+        "expected_probes": ["order_edge_between_siblings", "function_called_twice", "const_loaded_again", "cfg", "conditional", "poly_call"],
+        "technique": "model export of seeded interleaved-builder products (the exporter reads history-dependent port counters), structural oracle over the exported dataclasses",
+        "level_text": "The exporter takes port lists from counters whose value depends on the order in which builders linked ports, so the same abstract HUGR reached by two schedules can export differently; the check therefore exports engine-B products (scheduler-chosen interleavings) and compares the exported module with the HUGR clause by clause.",
+        "level_note": "Trusted: oracles/modelcheck.py, refsem value-port counts. Only HUGRs the C01 oracle accepts are exported (others are discards so that one defect is not reported twice). The attribute-table clause is a static comparison riding on the simulation's boot.",
+    },
     "C13": {
         "engine": "B", "level": "exploration",
         "tiers": {"quick": {"batches": 16, "runs": 400, "budget_s": 50, "floor_runs": 1500},
